@@ -600,6 +600,12 @@ impl FromStr for StandardCommunity {
             let tagv = u16::from_str(t).map_err(|_e| "cant parse Tag")?;
             Ok(StandardCommunity::new(asn, Tag(tagv)))
         } else if let Some(hex) = s.strip_prefix("0x") {
+            // More than 8 hex digits is not a 4-byte community, even if
+            // the leading digits are zeroes: it is the hex form of one of
+            // the wider community types.
+            if hex.len() > 8 {
+                return Err("invalid hex".into());
+            }
             if let Ok(hex) = u32::from_str_radix(hex, 16) {
                 Ok(StandardCommunity(hex.to_be_bytes()))
             } else {
@@ -1074,6 +1080,10 @@ impl FromStr for ExtendedCommunity {
             _ => { Err(ParseError("unknown tag")) }
             }
         } else if let Some(hex) = s.strip_prefix("0x") {
+            // More than 16 hex digits is not an 8-byte community.
+            if hex.len() > 16 {
+                return Err("invalid hex".into());
+            }
             if let Ok(hex) = u64::from_str_radix(hex, 16) {
                 Ok(ExtendedCommunity(hex.to_be_bytes()))
             } else {
